@@ -29,8 +29,6 @@ structure QInv (s : QState) : Prop where
   unb : s.cap = none → s.nf.W = [] ∧ s.nf.S = []
   fifo : taken s.log ++ s.q = puts s.log
 
-abbrev Shrunk (S S' : List Nat) (t : Nat) : Prop := S' = S ∧ t ∉ S ∨ S' = S.erase t ∧ t ∈ S
-
 theorem exec_put_bounded (s : QState) (t v c : Nat) (rest : List QOp) (hc : s.cap = some c) :
     ∃ S', Shrunk s.nf.S S' t ∧ s.execOp t (.put v) rest =
       if s.q.length = c then { s with toMon := { s.toMon.setWs .notFull ⟨s.nf.W ++ [t], S'⟩ with owner := none } }
